@@ -174,6 +174,15 @@ func buildNest(kinds []string, exit string, level int, pos string) *gen.Program 
 	if pos == "try" || pos == "catch" || pos == "tryfinally-in-switch" {
 		p.Classes = []gen.ClassDecl{{Name: "E0", Extends: "Exception"}}
 	}
-	p.Main = []gen.Stmt{build(0), EchoS("end")}
+	// the loop counters after the nest are observable too (an exit by break/continue N
+	// must not run a for-loop's increment clause once more); foreach value variables are
+	// left out (what they hold after the loop is not part of the compared domain)
+	var tail []gen.Expr
+	for i, iv := range idxs {
+		if lps[i].kind != "foreach" {
+			tail = append(tail, iv, &gen.StrLit{S: ","})
+		}
+	}
+	p.Main = []gen.Stmt{build(0), EchoS("end:", tail...)}
 	return p
 }
